@@ -94,11 +94,13 @@ claim("C09",
       CSS_TRUST + "That every nested rule reaches the rule function (at-rule dispatch) is covered by correspondence + oracle only.",
       "Lean 4 proof (identifier-rewrite exactness by structural recursion over token trees) + correspondence + oracle")
 claim("C10",
-      "PARTIAL proof. Lean 4 (Mathlib, ordered field) theorem rpx_error_bound: value*100/ratio computed with two roundings of relative error ≤ ε is within (2ε+ε²)|exact| and "
+      "PARTIAL proof. Lean 4 theorems block_numbers_exact / convRpx_nums / convCls_nums (structural recursion over the token tree): the numeric tokens written are the input's, "
+      "in order and bit for bit, except that exactly the dimensions whose unit is rpx are replaced by a vw dimension carrying rpxConvert(value, ratio) — in declarations, "
+      "functions, selector functions and prelude blocks at any depth (rpxLeaf_other, rpxLeaf_rpx). (Mathlib, ordered field) rpx_error_bound: value*100/ratio computed with two roundings of relative error ≤ ε is within (2ε+ε²)|exact| and "
       "keeps the sign; the model's executable Float32 conversion and integer test agree with the implementation on every generated number (bit patterns compared); "
       "oracle: rpx and non-integers within f32 rounding, integers exact, no other unit converted.",
       CSS_TRUST + "IEEE-754 single-precision arithmetic (Lean Float32 = Rust f32) is trusted; decimal printing is outside the model (oracle only).",
-      "Lean 4 proof (error bound over an ordered field, rounding as a parameter) + bit-exact correspondence of the conversion + numeric oracle")
+      "Lean 4 proof (numeric tokens preserved except rpx, any nesting; error bound over an ordered field with rounding as a parameter) + bit-exact correspondence of the conversion + numeric oracle")
 claim("C17",
       "PARTIAL proof. Lean 4 theorems about one rule: host_rule_moves (a pure :host{} writes nothing to the normal output, no warning, and exactly chain…{ selector { "
       "block } }… with balanced braces to the low output, the block transformed by the ordinary declaration function), host_combination_dropped (neither output changes, "
